@@ -179,7 +179,7 @@ func units(ts []html5.Tok) []unit {
 			continue
 		}
 		for _, a := range t.Attrs {
-			if strings.HasPrefix(a.Key, "on") || strings.HasPrefix(a.Key, "hx-on") {
+			if strings.HasPrefix(a.Key, "on") || strings.HasPrefix(a.Key, "hx-on") || a.Key == "data-j" {
 				us = append(us, unit{true, a.Val})
 			}
 		}
@@ -205,7 +205,7 @@ type plan struct {
 }
 
 func encSentinel(kind string) string {
-	if kind == "bare" {
+	if kind == "bare" || kind == "jsonattr" {
 		return `"` + Sentinel + `"`
 	}
 	if kind == "json" {
@@ -265,7 +265,7 @@ func fragments(text string, pieces, kinds []string) ([]string, bool) {
 	var out []string
 	for i := 1; i < len(pieces); i++ {
 		j := -1
-		if k := kinds[i-1]; k == "bare" || k == "json" {
+		if k := kinds[i-1]; k == "bare" || k == "json" || k == "jsonattr" {
 			dec := json.NewDecoder(strings.NewReader(rest))
 			var raw json.RawMessage
 			if dec.Decode(&raw) == nil {
@@ -311,6 +311,9 @@ func unescapedAt(text string, i int) bool {
 // enclosing kind, raw line terminator in '…'/"…", dangling backslash), and a
 // template-literal interpolation opener.
 func lexical(kind, frag string) string {
+	if kind == "jsonattr" {
+		return "" // a data attribute is not a script context; only its decoded value is compared
+	}
 	if reEndScript.MatchString(frag) {
 		return "fragment contains </script"
 	}
@@ -394,7 +397,7 @@ func want(tmpl string, v any) (any, string, error) {
 		lit = s
 	}
 	lj, _ := json.Marshal(lit)
-	txt := strings.NewReplacer("$V", string(vj), "$L", string(lj)).Replace(tmpl) // single pass: substituted text is not rescanned
+	txt := strings.NewReplacer("$V", string(vj), "$L", string(lj), "$S", string(lj[1:len(lj)-1])).Replace(tmpl) // single pass: substituted text is not rescanned
 	var w any
 	if err := json.Unmarshal([]byte(txt), &w); err != nil {
 		return nil, "", fmt.Errorf("bad expectation %s: %v", txt, err)
@@ -680,6 +683,21 @@ func (e *engine) judgeDocs(cases []Case, docs [][]byte, msgs []string) []string 
 					msgs[ci] = "inconclusive: " + err.Error()
 					break
 				}
+				if pl.kinds[di][0] == "jsonattr" {
+					// templ.JSONString in a data attribute: the decoded attribute value is
+					// JSON text (no script context), parsed here and compared like a record
+					var got any
+					if err := json.Unmarshal([]byte(u.Text), &got); err != nil {
+						msgs[ci] = fmt.Sprintf("data-j attribute %q is not JSON (%v), expected %s", u.Text, err, txt)
+					} else if !reflect.DeepEqual(normJSON([]any{[]any{got}}), w) {
+						msgs[ci] = fmt.Sprintf("data-j attribute holds %s, expected %s", u.Text, txt)
+					}
+					if msgs[ci] != "" {
+						break
+					}
+					di++
+					continue
+				}
 				src := prelude + defs + u.Text + epilogue
 				if pl.kinds[di][0] == "json" {
 					lit, _ := json.Marshal(u.Text)
@@ -737,6 +755,14 @@ var basePositions = map[string][]string{
 	"combo": {"bare", "sq", "dq", "bt"}, "quote_state": {"bare", "sq", "dq"}, "after_comments": {"bare", "sq"}, "two_scripts": {"bare", "dq"},
 	"script3_component": {"script_component"}, "script3_attr": {"script_attr"},
 	"funccall_dotted_hxon": {"funccall_attr"}, "funccall_cond_attr": {"funccall_attr"}, "funccall_name_attr": {"funccall_name_component"},
+	"qs_sq_escaped": {"sq"}, "qs_dq_escaped": {"dq"}, "qs_bt_escaped": {"bt"}, "qs_bt_escaped_odd": {"bt"}, "qs_bare_after_bt_escaped": {"bare"}, "qs_escaped_backslash": {"sq", "dq", "bt"}, "qs_other_kinds_inside": {"sq", "dq", "bt"},
+	"qs_comments": {"bare", "sq", "dq", "bt"}, "qs_bt_holes": {"bt"}, "qs_bare_after_literals": {"bare"},
+	"js_then_funccall": {"jsonstring_attr", "funccall_component"}, "js_then_funccall_attr": {"jsonstring_attr", "funccall_attr"},
+	"js_then_script_component": {"jsonstring_attr", "script_component"}, "js_then_script_attr": {"jsonstring_attr", "script_attr"},
+	"js_then_jsonscript": {"jsonstring_attr", "jsonscript"}, "js_then_bare": {"jsonstring_attr", "bare", "dq"},
+	"funccall_then_js": {"jsonstring_attr", "funccall_component"}, "script_component_then_js": {"jsonstring_attr", "script_component"},
+	"jsonscript_then_js": {"jsonstring_attr", "jsonscript"}, "bare_then_js": {"jsonstring_attr", "bare"},
+	"js_sandwich": {"jsonstring_attr", "funccall_component", "script_component"},
 }
 
 // shrink canonicalises a failing case deterministically: elementary position
@@ -876,6 +902,17 @@ func Run(c *core.Ctx) {
 	e := build(c)
 	defer e.pkg.Close()
 	c.Set("positions_compiled", len(positions))
+	nqs, napi := 0, 0
+	for _, p := range positions {
+		if strings.HasPrefix(p.Name, "qs_") || p.Name == "quote_state" || p.Name == "after_comments" {
+			nqs++
+		}
+		if strings.Contains(p.Body, "templ.JSONString") {
+			napi++
+		}
+	}
+	c.Set("positions_parser_quote_state", nqs)
+	c.Set("positions_jsonstring_and_api_combinations", napi)
 	dbg := func(what string) {
 		if os.Getenv("VERIF_DEBUG") != "" {
 			fmt.Fprintf(os.Stderr, "[c03 %6.1fs] %s\n", time.Since(c.Start).Seconds(), what)
@@ -1081,7 +1118,7 @@ func Run(c *core.Ctx) {
 	c.Set("failing_position_value_pairs", len(fails))
 	perPos := map[string]int{}
 	for _, f := range fails {
-		if perPos[f.cs.Pos]++; perPos[f.cs.Pos] > 5 {
+		if perPos[f.cs.Pos]++; perPos[f.cs.Pos] > 4 {
 			continue
 		}
 		report(f.cs, f.msg)
